@@ -637,10 +637,29 @@ mod detail {
         ops: &[FlatOp<T>],
         nodes: &[FlatNode<T>],
     ) -> ExprIdxVec {
+        // An operator between two numbers may only be applied ahead of its turn if that merely
+        // regroups a chain of one and the same commutative operator. Hence, the closest operator
+        // to the left that is not applied earlier anyway must not be a different operator of equal
+        // priority.
+        let regrouping_is_valid = |bin_op_idx: usize| {
+            let op = &ops[bin_op_idx];
+            let left_op = ops[..bin_op_idx]
+                .iter()
+                .rev()
+                .find(|left_op| left_op.bin_op.op.prio <= op.bin_op.op.prio);
+            match left_op {
+                Some(left_op) => {
+                    left_op.bin_op.op.prio < op.bin_op.op.prio
+                        || left_op.bin_op.idx == op.bin_op.idx
+                }
+                None => true,
+            }
+        };
         let prio_increase =
             |bin_op_idx: usize| match (&nodes[bin_op_idx].kind, &nodes[bin_op_idx + 1].kind) {
                 (FlatNodeKind::Num(_), FlatNodeKind::Num(_))
-                    if ops[bin_op_idx].bin_op.op.is_commutative =>
+                    if ops[bin_op_idx].bin_op.op.is_commutative
+                        && regrouping_is_valid(bin_op_idx) =>
                 {
                     let prio_inc = 5;
                     &ops[bin_op_idx].bin_op.op.prio * 10 + prio_inc
